@@ -8,6 +8,7 @@ mod jumbf;
 mod media;
 mod net;
 mod ops;
+mod pki;
 mod props;
 mod report;
 mod rng;
